@@ -201,7 +201,7 @@ def bounded(tier, seed, procs):
         if prod[0] != "val" or got != ref:
             b2.fail(Failure("multivectors", f"what=symbolic env={env}", dict(kind="ga2s", env=repr(env)), expected="reference product", actual=outcome.describe(prod)[:200],
                             functions=["MultiVector._generic_product"]))
-    return [b, b2, b_index_tuples(tier), b_same_coefficients(tier)]
+    return [b, b2, b_index_tuples(tier), b_same_coefficients(tier), b_scalar_operands(tier)]
 
 
 def b_index_tuples(tier):
@@ -249,6 +249,48 @@ def b_index_tuples(tier):
                 if r[0] != "exc":
                     b.fail(Failure("index-tuples", f"what=repeated-index-accepted dim={dim}", dict(kind="rep", dim=dim), expected="an error", actual=outcome.describe(r)[:100],
                                    functions=["Space.bits_and_sign"]))
+    return b
+
+
+def b_scalar_operands(tier):
+    """Every binary operator with a plain number (int, bool, Fraction, float) as the LEFT or the RIGHT operand: the reflected methods."""
+    import operator
+    import numpy as np
+    from pymbolic.geometric_algebra import MultiVector, Space
+    b = BoundedRun("scalar-operands", rule="s op m and m op s for op in {*, ^, |, <<, >>, +, -} with s a plain number (int, bool, Fraction, float) and m running over "
+                   "all basis blades and a few mixed-grade multivectors in dimensions 0..3 (two metrics each): the result equals the same operation with the scalar "
+                   "given as a grade-0 multivector, computed by the independent list-based product with grade selection; m / s = m * (1/s)",
+                   bound="4 dims x 2 metrics x (2^dim + 3) multivectors x 5 scalars x 7 operators x 2 sides", functions=["MultiVector.__rmul__/__rxor__/__ror__/__rlshift__/__rrshift__/__radd__/__rsub__", "_cast_or_ni"])
+    sel = {"mul": None, "xor": lambda a, c, r: r == a + c, "or": lambda a, c, r: r == abs(a - c), "lshift": lambda a, c, r: r == c - a, "rshift": lambda a, c, r: r == a - c}
+    ops = {"mul": operator.mul, "xor": operator.xor, "or": operator.or_, "lshift": operator.lshift, "rshift": operator.rshift, "add": operator.add, "sub": operator.sub}
+    for dim in (0, 1, 2, 3):
+        for g in ((1,) * dim, (-1, 2, 0)[:dim]):
+            sp = Space([f"e{i}" for i in range(dim)], np.diag(np.array(g, dtype=object)) if dim else np.zeros((0, 0), dtype=object))
+            mvs = [MultiVector({bits: 1}, sp) for bits in range(2 ** dim)]
+            mvs += [MultiVector({0: 5, (2 ** dim - 1): 2}, sp), MultiVector({0: 3}, sp), MultiVector({bits: bits + 1 for bits in range(2 ** dim)}, sp)]
+            for m in mvs:
+                for sc in (2, -3, True, Fraction(1, 2), 0.5):
+                    for name, op in ops.items():
+                        for side in ("left", "right"):
+                            real = outcome.run(lambda: op(sc, m) if side == "left" else op(m, sc))
+                            sref = {(): sc} if sc != 0 else {}
+                            if name in sel:
+                                ref = ref_mul(sref, to_ref(m), g, sel[name]) if side == "left" else ref_mul(to_ref(m), sref, g, sel[name])
+                            else:
+                                mr = to_ref(m)
+                                if name == "add":
+                                    ref = _addref(sref, mr)
+                                elif side == "left":
+                                    ref = _addref(sref, {k: -v for k, v in mr.items()})
+                                else:
+                                    ref = _addref(mr, {k: -v for k, v in sref.items()})
+                                ref = {k: v for k, v in ref.items() if v != 0}
+                            b.case((dim, g, repr(m.data), repr(sc), name, side), sample=dict(dim=dim, metric=g, m=repr(m.data), scalar=repr(sc), op=name, side=side))
+                            if not (real[0] == "val" and isinstance(real[1], MultiVector) and to_ref(real[1]) == ref):
+                                b.fail(Failure("scalar-operands", f"what=scalar-{side}-{name} dim={dim} metric={g} m={m.data} scalar={sc!r}",
+                                               dict(kind="ga-scalar", dim=dim, metric=list(g), m=repr(m.data), scalar=repr(sc), op=name, side=side), expected=repr(ref)[:200],
+                                               actual=(outcome.describe(real) if real[0] == "exc" or not isinstance(real[1], MultiVector) else repr(to_ref(real[1])))[:200],
+                                               functions=[f"MultiVector.__{'r' if side == 'left' else ''}{name}__"]))
     return b
 
 
